@@ -145,6 +145,86 @@ def gen_case_long(rng, reftool):
     return kind, list(zip(names, seqs)), dup_idx
 
 
+def gen_case_sec(rng):
+    """selenoprotein-style inputs: a duplicated protein with cysteines, short fragments of it that spell U (selenocysteine) where it has C - U is
+    no member of any published class, so they are not contained in it - and near relatives with indels at different places"""
+    L = rng.randint(50, 220)
+    S = list(gen.rand_seq(rng, L, gen.AA))
+    S = [c if rng.random() < 0.7 else rng.choice(gen.AA_ONLY) for c in S]
+    for i in range(L):
+        if rng.random() < 0.09:
+            S[i] = "C"
+    S = "".join(S)
+    others = []
+    nfrag = rng.randint(2, 4)
+    for k in range(nfrag):
+        fl = rng.randint(12, max(13, L // nfrag - 2))
+        lo = k * (L // nfrag)
+        off = rng.randint(lo, max(lo, lo + L // nfrag - fl))
+        frag = list(S[off:off + fl])
+        if "C" not in frag:
+            frag[rng.randrange(len(frag))] = "C"   # then it differs from S at that place as well
+        frag = ["U" if c == "C" else c for c in frag]
+        others.append("".join(frag))
+    for _ in range(rng.randint(2, 5)):
+        x = list(S)
+        for _ in range(rng.randint(1, 3)):
+            i = rng.randrange(2, len(x) - 2)
+            if rng.random() < 0.5:
+                del x[i:i + rng.randint(1, 3)]
+            else:
+                x[i:i] = [rng.choice(gen.AA) for _ in range(rng.randint(1, 3))]
+        for _ in range(rng.randint(1, 4)):
+            i = rng.randrange(len(x))
+            x[i] = _subst_other_class(rng, x[i], gen.AA, "protein")
+        others.append("".join(x))
+    others = [o for o in dict.fromkeys(others) if o != S]
+    seqs = others + [S] * rng.randint(2, 3)
+    rng.shuffle(seqs)
+    names = gen.names(rng, len(seqs), rng.choice(["s", "rand"]))
+    dup_idx = [i for i, s_ in enumerate(seqs) if seqs.count(s_) > 1]
+    return "protein", list(zip(names, seqs)), dup_idx
+
+
+PUBLISHED = ["LM", "IV", "KR", "EQ", "AST", "ND", "FY", "C", "G", "H", "P", "W"]
+
+
+def class_table_check(ck, paths):
+    """The premise is evaluated on the published classes. Observe the table kalign really uses for guide-tree distances (create_alphabet(ALPHA_redPROTEIN))
+    in the running build: it must not treat as equal a standard amino acid and a letter of another published class / a letter outside the classes
+    (B and Z stand for N-or-D and E-or-Q and are shipped in those classes). A coarser table makes kalign see containment the property's premise excludes."""
+    r, l = common.kvdrv(paths, ["alphabet 13", "alphabet 5"], scratch=ck.scratch)
+    if ck.proc_violations(r, {"stage": "class-table"}, allow_rcs=(0,)):
+        return
+    tabs = [x for x in l if x.get("op") == "alphabet"]
+    if len(tabs) != 2 or len(tabs[0]["to_internal"]) != 128:
+        ck.note_inconclusive("class table could not be observed")
+        return
+    t = tabs[0]["to_internal"]
+    pub = {}
+    for g in PUBLISHED:
+        for c in g:
+            pub[c] = g
+    pub["B"], pub["Z"] = "ND", "EQ"
+    ck.count("class_table_letters_observed", 52)
+    for a in "ACDEFGHIKLMNPQRSTVWY":
+        for b in "ABCDEFGHIJKLMNOPQRSTUVWXYZ":
+            ck.count("class_table_pairs_checked")
+            same = t[ord(a)] == t[ord(b)] and t[ord(a)] >= 0
+            if same and pub.get(b) != pub[a]:
+                ck.violation("premise-classes:kalign-treats-%s-as-%s" % (b, a),
+                             "the reduced alphabet used for guide-tree distances gives %s and %s the same code (%d); the published classes keep them apart, so a sequence "
+                             "spelling %s where a duplicated sequence has %s counts as contained for kalign although the premise of C12 holds" % (a, b, t[ord(a)], b, a),
+                             {"stage": "class-table", "table": {chr(i): t[i] for i in range(65, 91)}})
+            if not same and pub.get(b) == pub[a] and b in "ACDEFGHIKLMNPQRSTVWY":
+                ck.count("class_table_finer_than_published")
+        if t[ord(a)] != t[ord(a.lower())]:
+            ck.violation("premise-classes:case-sensitive-codes", "letter %s and %s have different codes in the reduced alphabet" % (a, a.lower()), {"stage": "class-table"})
+    d = tabs[1]["to_internal"]
+    if len({d[ord(c)] for c in "ACGT"}) != 4 or d[ord("U")] != d[ord("T")]:
+        ck.violation("premise-classes:nucleotide-codes", "A,C,G,T must have four codes and U the code of T: %s" % {c: d[ord(c)] for c in "ACGTU"}, {"stage": "class-table"})
+
+
 def gen_case(rng):
     kind = rng.choice(["dna", "protein", "protein", "rna"])
     alpha = {"dna": gen.DNA, "rna": gen.RNA, "protein": gen.AA}[kind]
@@ -185,6 +265,9 @@ def run_case(ck, paths, reftool, idx):
     if idx % 4 == 3:
         kind, recs, dup_idx = gen_case_long(rng, reftool)
         ck.count("inputs_long_duplicate_with_fragments_or_special_distances")
+    elif idx % 8 == 5:
+        kind, recs, dup_idx = gen_case_sec(rng)
+        ck.count("inputs_with_selenocysteine_fragments_of_the_duplicate")
     else:
         kind, recs, dup_idx = gen_case(rng)
     seqs = [s for _, s in recs]
@@ -243,8 +326,10 @@ def run(ck, tier):
     reftool = build_ref()["reftool"]
     sc = getattr(ck, "scale", 1.0)
     n = int((300 if tier == "quick" else 4000) * sc)
+    class_table_check(ck, paths)
     common.pmap(lambda i: run_case(ck, paths, reftool, i), range(n), workers=12)
-    ck.rule = ("(every fourth case: a duplicated sequence of 300..2400 residues with short non-contained near-fragments of it and/or relatives placed at edit distances "
+    ck.rule = ("the similarity classes kalign uses for guide-tree distances are read from the running build and compared with the published ones the premise is evaluated on; "
+               "every eighth case: a duplicated protein with fragments spelling U for C and relatives with indels; (every fourth case: a duplicated sequence of 300..2400 residues with short non-contained near-fragments of it and/or relatives placed at edit distances "
                "64/128/255/256/257/512/768/1024 from it, incl. low-complexity) families of 2..99 sequences with 1..4 duplicated members of multiplicity 2..6 at random positions under distinct names (plus near-duplicates "
                "differing inside a similarity class, which the premise check must exclude); premise checked independently with a semi-global edit distance on "
                "the class-reduced alphabet (ref/reftool.c); all admissible types; threads 1/4/16. Non-trivial = output contains gaps and the premise held.")
@@ -254,6 +339,9 @@ def run(ck, tier):
 def replay(ck, doc):
     paths = build("asan")
     reftool = build_ref()["reftool"]
-    run_case(ck, paths, reftool, doc["replay"]["idx"])
+    if doc["replay"].get("stage") == "class-table":
+        class_table_check(ck, paths)
+    else:
+        run_case(ck, paths, reftool, doc["replay"]["idx"])
     with ck.lock:
         ck.nontrivial |= set(range(30))
